@@ -4,14 +4,14 @@
 //     observer records the applied position permutation and the shuffled `indices` array;
 //   * tapkee::uniform_random / gaussian_random — CUSTOM_*_RANDOM_FUNCTION point to logging generators
 //     owned by this file (default build); with -DC19_PLAIN the shipped std::rand based functions stay
-//     in place and the harness predicts the std::rand stream instead (srand is set by the case);
+//     in place and only the RPM command (moments of gaussian_projection_matrix) is compiled;
 //   * the distance callback logs (i, j) of every call, which exposes the pairs SPE updates in each
 //     iteration (the calls between two consecutive shuffles).
 // Nothing of the library is copied here.  Exact numbers are printed as C99 hex floats.
 //
 // stdin (tokens separated by white space; numbers in any strtod syntax):
 //   SPE id N D d global k nupd maxiter tol srand shseed useed umode nbm log   + N*D numbers (sample major)
-//       umode 0: u = 20-bit dyadic from mt19937_64(useed); 1: u = 1 - 2^-20; 2: u = 0
+//       umode 0: u = 20-bit dyadic from mt19937_64(useed); 1: u = 1 - 2^-20; 2: u = 0; 3: u = m/8 from mt19937_64(useed)
 //       nbm 0 Brute, 1 VpTree, 2 CoverTree ; log 0 none, 1 shuffled values + pairs, 2 + from, u, Y0, R
 //   RP  id N D d gseed gmode   + N*D numbers      gmode 0: g = small dyadic from mt19937_64(gseed), 1: N(0,1)
 //   FA  id N D d maxiter eps srand  + N*D numbers
@@ -40,6 +40,9 @@ static double c19_gaussian();
 // do for one method - check/merge the parameters, construct ImplementationBase (its target_dimension range
 // check included), then Impl::validate() and Impl::embed() of methods/<method>.hpp.
 #include <tapkee/defines.hpp>
+#include <tapkee/utils/time.hpp>
+#include <tapkee/routines/random_projection.hpp>
+#ifndef C19_PLAIN
 #include <tapkee/parameters/context.hpp>
 #include <tapkee/parameters/defaults.hpp>
 #include <tapkee/methods/base.hpp>
@@ -48,9 +51,11 @@ static double c19_gaussian();
 #include <tapkee/methods/random_projection.hpp>
 #include <tapkee/methods/stochastic_proximity_embedding.hpp>
 #include <tapkee/methods/factor_analysis.hpp>
+#endif
 
 using namespace tapkee;
 
+#ifndef C19_PLAIN
 template <template <class, class, class, class> class Impl, class It, class K, class Dc, class Fc>
 static TapkeeOutput embed_with(It b, It e, K k, Dc d, Fc f, stichwort::ParametersSet parameters)
 {
@@ -96,6 +101,8 @@ static double c19_uniform()
         u = 1.0 - std::ldexp(1.0, -20);
     else if (g_umode == 2)
         u = 0.0;
+    else if (g_umode == 3)
+        u = (double)((g_ugen() >> 44) & 7) / 8.0; // multiples of 1/8: u*k is an integer for k = 4, 8 (floor boundaries)
     else
         u = std::ldexp((double)(g_ugen() >> 44), -20);
     if (g_logging)
@@ -241,17 +248,6 @@ static void run_spe(std::istream& in, const std::string& id)
     DenseMatrix Y0;
     if (d >= 1 && N >= 1 && d <= 64)
         Y0 = (DenseMatrix::Random(d, N) + DenseMatrix::Ones(d, N)) / 2;
-    std::vector<double> predicted_us;
-#ifdef C19_PLAIN
-    if (!global && log >= 2)
-    {
-        long long want = (long long)std::min(nupd, std::max(N / 2, 0)) * (maxiter > 0 ? maxiter : 0);
-        if (want > 2000000)
-            want = 2000000;
-        for (long long i = 0; i < want; ++i)
-            predicted_us.push_back(std::rand() / ((double)RAND_MAX + 1));
-    }
-#endif
     // neighbours as the method is going to compute them (same public routine, same arguments)
     tapkee_internal::Neighbors nbs;
     if (!global)
@@ -319,8 +315,6 @@ static void run_spe(std::istream& in, const std::string& id)
                 for (int j = 0; j < N; ++j)
                     R(i, j) = (X.col(i) - X.col(j)).norm();
             print_rows("R", R);
-            if (!predicted_us.empty())
-                print_hex("PU", predicted_us.data(), predicted_us.size());
         }
         if (log >= 1)
         {
@@ -449,6 +443,8 @@ static void run_fa(std::istream& in, const std::string& id)
     std::printf("END %s\n", id.c_str());
 }
 
+#endif // C19_PLAIN
+
 // ------------------------------------------------------------------------------------------ RPM
 static void run_rpm(std::istream& in, const std::string& id)
 {
@@ -461,9 +457,11 @@ static void run_rpm(std::istream& in, const std::string& id)
         return;
     }
     std::srand(srand_seed);
+#ifndef C19_PLAIN
     g_gmode = 1;
     g_ggen.seed(srand_seed);
     g_logging = false;
+#endif
     // raw moments of sqrt(D) * entry, and the lag-1 / cross-position products
     long double m1 = 0, m2 = 0, m3 = 0, m4 = 0, lag = 0;
     long long n = 0, nlag = 0;
@@ -511,13 +509,16 @@ int main()
             break;
         std::printf("C %s\n", id.c_str());
         std::fflush(stdout);
+#ifndef C19_PLAIN
         if (cmd == "SPE")
             run_spe(std::cin, id);
         else if (cmd == "RP")
             run_rp(std::cin, id);
         else if (cmd == "FA")
             run_fa(std::cin, id);
-        else if (cmd == "RPM")
+        else
+#endif
+        if (cmd == "RPM")
             run_rpm(std::cin, id);
         else
         {
